@@ -681,7 +681,8 @@ def _replay(ci: ContractInfo, ob_kind: str, ob_label: str, model: dict):
             info.update(confirmed=None, reason='model violates requires')
             return info
         info['arguments'] = {k: _show(v) for k, v in vals.items()}
-        before = deep_state({'args': _visible(ci, vals), 'globals': global_state()})
+        vals0 = dict(vals)      # (a loop-step / tail run rebinds and adds locals in `vals`: the frame is about the objects that existed before)
+        before = deep_state({'args': _visible(ci, vals0), 'globals': global_state()})
         old = copy.deepcopy(vals)
         exc = None
         result = None
@@ -739,7 +740,7 @@ def _replay(ci: ContractInfo, ob_kind: str, ob_label: str, model: dict):
             want = base[3:]
             info.update(confirmed=(exc is not None and type(exc).__name__ == want), clause=f'no uncaught {want}')
         elif ob_kind == 'frame':
-            after = deep_state({'args': _visible(ci, vals), 'globals': global_state()})
+            after = deep_state({'args': _visible(ci, vals0), 'globals': global_state()})
             info.update(confirmed=(before != after), clause='modifies')
             if before != after:
                 info['state_before'] = _trunc(before)
@@ -774,7 +775,8 @@ def native_check(ci: ContractInfo, g: ConcreteFactory):
         return None
     if ci.has('requires') and not _call_native(ci, 'requires', vals):
         return None
-    before = deep_state({'args': _visible(ci, vals), 'globals': global_state()})
+    vals0 = dict(vals)
+    before = deep_state({'args': _visible(ci, vals0), 'globals': global_state()})
     old = copy.deepcopy(vals)
     exc, result = None, None
     try:
@@ -819,7 +821,7 @@ def native_check(ci: ContractInfo, g: ConcreteFactory):
             failed.append(f'safe:no-{en}')
     if ci.kind == 'function':
         allowed = [m for m in getattr(ci.pycls, 'modifies', ()) if not m.endswith('.**')]
-        if not allowed and not ci.has('modifies_objs') and deep_state({'args': _visible(ci, vals), 'globals': global_state()}) != before:
+        if not allowed and not ci.has('modifies_objs') and deep_state({'args': _visible(ci, vals0), 'globals': global_state()}) != before:
             failed.append('frame:*')
     return failed
 
